@@ -56,6 +56,8 @@ FLAVOURS = {
     "W":      ("gcc", ["-O2", "-g0"], ["-DDRV_WIDE"]),
     "A_asan": ("gcc", ["-O1", "-g", "-fsanitize=address,undefined", "-fno-sanitize-recover=all", "-fno-omit-frame-pointer"], ["-DDRV_EXACT"]),
     "W_asan": ("gcc", ["-O1", "-g", "-fsanitize=address,undefined", "-fno-sanitize-recover=all", "-fno-omit-frame-pointer"], ["-DDRV_EXACT", "-DDRV_WIDE"]),
+    "A_tsan": ("gcc", ["-O1", "-g", "-fsanitize=thread", "-fno-omit-frame-pointer"], []),
+    "W_tsan": ("gcc", ["-O1", "-g", "-fsanitize=thread", "-fno-omit-frame-pointer"], ["-DDRV_WIDE"]),
 }
 
 def project_version():
